@@ -95,6 +95,10 @@ def plan(tier, seed):
                 jobs.append(("llk", A, P, maxR, ch, nchunks, n_letters ** maxR * P))
             jobs.append(("sym", A, P, n_letters * math.factorial(P)))
             jobs.append(("struct", A, P, seed, P ** P * 50))
+    if tier == "quick":
+        # more SNVs than haplotypes (the default interval must span all n_base columns, not `ploidy` of them)
+        jobs.append(("struct", (2, 2, 2), 2, seed, 3000))
+        jobs.append(("struct", (2, 3, 2, 2), 2, seed, 6000))
     jobs.sort(key=lambda j: -j[-1])
     return jobs
 
